@@ -199,6 +199,7 @@ func init() {
 		Run: func(c *core.Ctx) []ob {
 			out := scanDeepCopy(c)
 			out = append(out, core.Floor("DEEPCOPY", nil, "reference fields of deep-copied types", c.Stats["deepcopy_fields"], 10)...)
+			out = append(out, control(c, "DEEPCOPY", scanDeepCopy, "(Thing).CopyNew")...)
 			return out
 		}})
 }
